@@ -25,6 +25,11 @@ import rustlex  # noqa: E402
 
 BUILD = os.path.join(VERIF, 'build')
 EVID = os.path.join(VERIF, 'evidence')
+# runs against an overlay (mutation / refactoring studies: VERIF_REPO=<scratch>) must not overwrite the evidence
+# of the real tree
+if os.path.abspath(os.environ.get('VERIF_REPO', '/repo')) != '/repo':
+    EVID = os.path.join(VERIF, 'build', 'evidence-overlay')
+    os.makedirs(EVID, exist_ok=True)
 REPLAYS = os.path.join(VERIF, 'replays')
 VERUS_TIMEOUT = int(os.environ.get('VERIF_VERUS_TIMEOUT', '600'))
 
